@@ -64,6 +64,7 @@ class Job:
     solver: list = field(default_factory=list)  # e.g. ["--sat-solver","cadical"]
     witness_violation: str = None   # if set: an unreachable witness is itself the violation (e.g. no completing schedule)
     group: str = ""
+    object_bits: int = 10
 
 
 class Ctx:
@@ -266,7 +267,7 @@ def build_job(ctx, job, witness=False, kf_excludes=()):
 def cbmc_cmd(job, gb, extra=()):
     cmd = ["cbmc", gb, "--function", job.entry, "--json-ui"]
     if job.std_flags:
-        cmd += STD_FLAGS
+        cmd += [("%d" % job.object_bits) if (i > 0 and STD_FLAGS[i - 1] == "--object-bits") else f for i, f in enumerate(STD_FLAGS)]
     if job.unwind is not None:
         cmd += ["--unwind", str(job.unwind)]
     uws = dict(job.unwindset)
@@ -553,7 +554,11 @@ def run_job_inner(ctx, job):
     props = pr["props"]
     res["n_props"] = len(props)
     res["n_ok"] = sum(1 for p in props if p.get("status") == "SUCCESS")
-    failed = [p for p in props if p.get("status") not in ("SUCCESS",)]
+    failed = [p for p in props if p.get("status") == "FAILURE"]
+    undecided = [p for p in props if p.get("status") not in ("SUCCESS", "FAILURE")]
+    if undecided and not failed:      # e.g. UNKNOWN after a solver problem: never a pass
+        res.update(verdict="inconclusive", reason="%d obligations undecided (%s)" % (len(undecided), undecided[0].get("status")))
+        return res
     res["harness_asserts"] = sorted({p.get("description", "") for p in props
                                      if classify(p) == "assert"})
     funcs = {}
